@@ -20,7 +20,11 @@ Definition chars := list ascii.
 
 Inductive gitem := GLit (c : ascii) | GQ | GStar | GClass (neg : bool) (rs : list (ascii * ascii)).
 Inductive seg := SDStar | SGlob (g : list gitem).
-Record apat := { p_neg : bool; p_dir : bool; p_segs : list seg }.
+(* p_tail: the line ended in "/**/" after its last proper segment (or is "/**/").
+   pathspec compiles such a line exactly like the same line without the "**/"
+   (p_segs holds those segments; its regex lets the inner group match nothing), whereas
+   for git the directory matched must lie strictly BELOW (segments ++ double star). *)
+Record apat := { p_neg : bool; p_dir : bool; p_tail : bool; p_segs : list seg }.
 
 (* ---------- matching one component ---------- *)
 Definition in_range (c : ascii) (r : ascii * ascii) : bool :=
@@ -227,8 +231,8 @@ Definition parse_body (git : bool) (ng : bool) (s2 : chars) : presult :=
                 then SDStar :: ss1 else ss1 in
       let last_dstar := match rev ss1 with SDStar :: _ => true | _ => false end in
       if isdir && last_dstar && negb (single && match ss1 with [SDStar] => true | _ => false end)
-      then PUnsup
-      else PPat {| p_neg := ng; p_dir := isdir; p_segs := ss |}
+      then PPat {| p_neg := ng; p_dir := true; p_tail := true; p_segs := removelast ss1 |}
+      else PPat {| p_neg := ng; p_dir := isdir; p_tail := false; p_segs := ss |}
     end
   end.
 
